@@ -506,10 +506,46 @@ func (e *VerifEtcd) Break(closeChan bool) ([]string, error) {
 	return e.settleNewStreams()
 }
 
-// Reconnect runs the reload that follows a reconnect of the etcd connection: every
-// watcher of the cluster cancels its stream, loads and watches again.  Returns the range
-// ids that reloaded.
+// Quiesce ends the open stream of the range without compaction and waits for the new
+// one, which leaves the watch goroutine parked on a fresh channel (see Reconnect for why
+// that matters).  Used before the last subscriber of a range is closed.
+func (e *VerifEtcd) Quiesce(rangeID string) error {
+	e.mu.Lock()
+	var hit []*verifWatch
+	for _, w := range e.openLocked() {
+		if w.rangeID == rangeID {
+			hit = append(hit, w)
+		}
+	}
+	e.mu.Unlock()
+	for _, w := range hit {
+		if err := e.endStream(w, false, false); err != nil {
+			return err
+		}
+	}
+	return nil
+}
+
+// Reconnect plays a lost and re-established etcd connection: every open stream ends
+// (cancel response; the code opens new streams at once), then the reload runs that the
+// connection-state watcher starts after a reconnect: every watcher of the cluster cancels
+// its stream, loads and watches again.  Returns the range ids that reloaded.
+//
+// The streams are ended first on purpose: a watch goroutine that has just been handed a
+// response still needs the cluster lock to handle it (even the empty barrier), while
+// cluster.reload holds that lock and waits for the watch goroutines to leave.  A freshly
+// opened stream that has not been sent anything is the one state in which the goroutine
+// is known to be parked on the channel.  (A reload racing with a response in flight is a
+// schedule, not a history; C13 quantifies over histories.)
 func (e *VerifEtcd) Reconnect() ([]string, error) {
+	e.mu.Lock()
+	open := append([]*verifWatch(nil), e.openLocked()...)
+	e.mu.Unlock()
+	for _, w := range open {
+		if err := e.endStream(w, false, false); err != nil {
+			return nil, err
+		}
+	}
 	e.mu.Lock()
 	var ranges []string
 	before := map[string]int{}
